@@ -209,6 +209,55 @@ class ProgramOptionsSave(Contract):
                         return (l_[0], r_[0])
             return None
         _scan_ifs(parses[0], _direct)
+        # ---- the run uses the member variables, the results file and the saved config the variables map: after the stored value
+        # of a canonical option has been replaced by the alias value, notify() has to hand it to the member again (notify applies
+        # the options in map order, so a defaulted canonical option sorted after its alias has overwritten the alias value)
+        def _is_notify(stmt):
+            x = stmt
+            while x.get('kind') in ('ExprWithCleanups', 'ImplicitCastExpr', 'ParenExpr') and x.get('inner'):
+                x = x['inner'][0]
+            if x.get('kind') != 'CallExpr':
+                return False
+            cal = [y for y in _walk(x['inner'][0]) if y.get('kind') == 'DeclRefExpr']
+            if not any((y.get('referencedDecl') or {}).get('name') == 'notify' for y in cal):
+                return False
+            return any(y.get('kind') == 'MemberExpr' and y.get('name') == '_vm' for a__ in x['inner'][1:] for y in _walk(a__))
+
+        def _site_pair(a_):
+            pr = _direct(a_)
+            if pr is not None:
+                return pr
+            if a_.get('kind') == 'CallExpr':
+                lits_ = [strlit(q) for q in a_['inner'][1:]]
+                lits_ = [q for q in lits_ if q]
+                for (c__, al__) in copies:
+                    if c__ in lits_ and al__ in lits_:
+                        return (c__, al__)
+            return None
+        renotified = {}
+
+        def _visit(stmt, followers):
+            if not isinstance(stmt, dict):
+                return
+            k_ = stmt.get('kind')
+            if k_ == 'CompoundStmt':
+                ch = [c for c in stmt.get('inner', []) if isinstance(c, dict)]
+                for i_, c in enumerate(ch):
+                    _visit(c, ch[i_ + 1:] + followers)
+                return
+            if k_ in ('IfStmt', 'ForStmt', 'WhileStmt', 'CXXTryStmt', 'CXXCatchStmt', 'DoStmt', 'CXXForRangeStmt'):
+                for c in stmt.get('inner', []):
+                    _visit(c, followers)
+                return
+            for a_ in _walk(stmt):
+                pr = _site_pair(a_)
+                if pr is not None:
+                    renotified[pr] = renotified.get(pr, True) and any(_is_notify(f_) for f_ in followers)
+        pb = body(parses[0])
+        _visit(pb, [])
+        for pr in sorted(copies):
+            ex.obls.append(Obligation(f'ProgramOptions::parse#alias.{pr[1]}.member_renotified_after_copy', {'C13', 'C10'}, [], z3.BoolVal(bool(renotified.get(pr, False))), 'postcondition', None,
+                                      f'after the stored value of {pr[0]} is replaced by the value of {pr[1]}, notify(_vm) follows unconditionally before parse() returns, so the member the simulation reads holds the value the results file and the saved config record'))
         nalias = 0
         for mem, names in sorted(bound.items()):
             canon = [nm for nm in names if nm not in skipped]
@@ -258,6 +307,81 @@ class ProgramOptionsSave(Contract):
         ex.oblig(st, 'canary', z3.BoolVal(False), 'canary', set())
         info = {'unit': self.name, 'file': self.tu, 'sha': tu.sha, 'cases': 1, 'lines': [None, None], 'options': len(table),
                 'handled_types': sorted(handled_n), 'skipped_names': sorted(skipped), 'extract_s': 0}
+        return [ex], info
+
+
+class ProgramOptionsGetters(Contract):
+    """Every accessor `main` reads a parameter through returns the member the option OF THAT MEANING is bound to.
+    Facts from the real AST: registration table of the constructor (option name -> &member) and the returned member of each getter.
+    The table below is the statement: accessor -> option name(s) of the quantity (legacy aliases of the same quantity allowed)."""
+    name = 'vfps::ProgramOptions::get*'
+    tu = 'src/IO/ProgramOptions.cpp'
+    tags = {'C03', 'C04', 'C05', 'C06', 'C09', 'C10', 'C11', 'C12', 'C13', 'C15', 'C16', 'C17', 'C19'}
+    GETTERS = {
+        'getFPType': ('FPType', {'C04'}), 'getFPTrack': ('FPTrack', {'C15'}), 'getDampingTime': ('DampingTime', {'C04'}),
+        'getDerivationType': ('derivation', {'C04'}), 'getEnergySpread': ('BeamEnergySpread', {'C04', 'C03'}),
+        'getStepsPerTsync': ('StepsPerTs', {'C03', 'C04', 'C10', 'C13'}), 'getStepsPerTrev': ('StepsPerRevolution', {'C03', 'C04', 'C10'}),
+        'getNRotations': ('rotations', {'C10', 'C14'}), 'getOutSteps': ('outstep', {'C10', 'C12'}), 'getSavePhaseSpace': ('SavePhaseSpace', {'C10', 'C12'}),
+        'getRenormalizeCharge': ('RenormalizeCharge', {'C09', 'C12'}), 'getGridSize': ('GridSize', {'C17'}), 'getPhaseSpaceSize': ('PhaseSpaceSize', {'C17', 'C10'}),
+        'getPSShiftX': ('PhaseSpaceShiftX', {'C10'}), 'getPSShiftY': ('PhaseSpaceShiftY', {'C10'}),
+        'getAlpha0': ('alpha0', {'C03'}), 'getAlpha1': ('alpha1', {'C03'}), 'getAlpha2': ('alpha2', {'C03'}),
+        'getSyncFreq': ('SynchrotronFrequency', {'C03', 'C10', 'C13'}), 'getRFVoltage': ('AcceleratingVoltage', {'C03', 'C13'}),
+        'getRevolutionFrequency': ('RevolutionFrequency', {'C03', 'C10'}), 'getHarmonicNumber': ('HarmonicNumber', {'C03', 'C19'}),
+        'getBeamEnergy': ('BeamEnergy', {'C03', 'C10'}), 'getBendingRadius': ('BendingRadius', {'C16', 'C10'}), 'getLinearRF': ('LinearRF', {'C03'}),
+        'getRFAmplitudeSpread': ('RFAmplitudeSpread', {'C19'}), 'getRFPhaseSpread': ('RFPhaseSpread', {'C19'}),
+        'getRFPhaseModAmplitude': ('RFPhaseModAmplitude', {'C19'}), 'getRFPhaseModFrequency': ('RFPhaseModFrequency', {'C19'}),
+        'getBunchCurrents': ('BunchCurrent', {'C09', 'C05', 'C10'}), 'getVacuumChamberGap': ('VacuumGap', {'C16'}), 'getUseCSR': ('UseCSR', {'C16'}),
+        'getCollimatorRadius': ('CollimatorRadius', {'C16'}), 'getWallConductivity': ('WallConductivity', {'C16'}), 'getWallSusceptibility': ('WallSusceptibility', {'C16'}),
+        'getImpedanceFile': ('Impedance', {'C16'}), 'getCutoffFrequency': ('CutoffFreq', {'C16', 'C06'}), 'getPadding': ('padding', {'C06'}), 'getRoundPadding': ('RoundPadding', {'C06'}),
+        'getHaissinskiIterations': ('HaissinskiIterations', {'C05'}), 'getStartDistFile': ('InitialDistFile', {'C11'}), 'getStartDistStep': ('InitialDistStep', {'C11'}),
+        'getStartDistZoom': ('InitialDistZoom', {'C09'}), 'getParticleTracking': ('tracking', {'C15'}), 'getOutFile': ('output', {'C10'}),
+        'getInterpolationPoints': ('InterpolationPoints', {'C01', 'C02'}), 'getInterpolationClamped': ('InterpolateClamped', {'C01'}),
+    }
+
+    def custom_verify(self, scratch, tc):
+        tu = tc.get(self.tu)
+        ctor = tu.function('vfps::ProgramOptions::ProgramOptions')
+        ex = Exec(tu, ctor, 'ProgramOptions::get*')
+        ex.default_tags = set(self.tags)
+        bound = {}      # option name -> members it is bound to
+        for n in _walk(ctor):
+            if n.get('kind') != 'CXXOperatorCallExpr':
+                continue
+            args = n.get('inner', [])[1:]
+            if len(args) < 3:
+                continue
+            name = strlit(args[1]) if args[1].get('kind') in ('ImplicitCastExpr', 'StringLiteral') else None
+            if not name:
+                continue
+            for x in _walk(args[2]):
+                if x.get('kind') == 'UnaryOperator' and x.get('opcode') == '&':
+                    mem = [y.get('name') for y in _walk(x) if y.get('kind') == 'MemberExpr']
+                    if mem:
+                        bound.setdefault(name.split(',')[0], set()).add(mem[0])
+        if len(bound) < 40:
+            raise ExtractionError(f'ProgramOptions constructor: only {len(bound)} bound options recognised')
+        ntrivial = 0
+        for g, (opt, tags) in sorted(self.GETTERS.items()):
+            fns = [f for f in tu.funcs.get('vfps::ProgramOptions::' + g, []) if body(f) is not None]
+            if len(fns) != 1:
+                raise ExtractionError(f'ProgramOptions::{g}: definition not found (renamed?)')
+            rets = [x for x in _walk(body(fns[0])) if x.get('kind') == 'ReturnStmt']
+            if len(rets) != 1:
+                raise ExtractionError(f'ProgramOptions::{g}: expected a single return')
+            e = rets[0]['inner'][0] if rets[0].get('inner') else None
+            while e is not None and e.get('kind') in ('ImplicitCastExpr', 'ExprWithCleanups', 'CXXConstructExpr', 'MaterializeTemporaryExpr', 'ParenExpr', 'CXXBindTemporaryExpr') and len(e.get('inner', [])) == 1:
+                e = e['inner'][0]
+            if e is None or e.get('kind') != 'MemberExpr':
+                raise ExtractionError(f'ProgramOptions::{g}: does not simply return a member (contract has to be rewritten)')
+            mem = e.get('name')
+            if opt not in bound:
+                raise ExtractionError(f'ProgramOptions: option {opt} is not registered with a bound variable (renamed?)')
+            ok = mem in bound[opt]
+            ntrivial += 1
+            ex.obls.append(Obligation(f'ProgramOptions::{g}#returns_value_of_option.{opt}', set(tags), [], z3.BoolVal(ok), 'postcondition', line_of(fns[0]),
+                                      f'{g}() returns member {mem}; option {opt} is bound to {sorted(bound[opt])}'))
+        ex.oblig(State(), 'canary', z3.BoolVal(False), 'canary', set())
+        info = {'unit': self.name, 'file': self.tu, 'sha': tu.sha, 'cases': 1, 'lines': [None, None], 'getters': ntrivial, 'extract_s': 0}
         return [ex], info
 
 
